@@ -77,8 +77,9 @@ def gen_colo_script(rng):
     fillers = [_req(i, 1, cpn) for i in range(nn)]                       # each fills one node: the pilot is full
     keep = rng.sample(range(nn), rng.randint(1, nn - 3))                 # ... and these stay, the others complete
     freed = [[i] for i in range(nn) if i not in keep]
-    a = _req(10, rng.choice([2, 2, 3]), cpn, colo=7)
-    b = _req(11, 1, 1, colo=7)
+    tag = rng.choice([0, 7])
+    a = _req(10, rng.choice([2, 2, 3]), cpn, colo=tag)
+    b = _req(11, 1, 1, colo=tag)
     iters = [E([{'sched': fillers}]), E([], freed), E([{'sched': [a]}]), E([{'sched': [b]}]), E(), E([], [[10]]), E(), E()]
     return {'cfg': {'cpn': cpn, 'gpn': 0, 'lfs': 0, 'mem': 0, 'scattered': False}, 'nodes': nodes, 'iters': iters}
 
